@@ -129,7 +129,8 @@ class WsConnA:
             if self.server_closed:
                 self.proto.append('websocket.close twice')
                 raise RuntimeError("Unexpected ASGI message 'websocket.close'")
-            if self.disconnect_delivered:
+            if self.disconnect_delivered or self.send_fails:
+                # (a connection whose writes fail fails this one too)
                 raise ClientGone('peer gone')
             self.server_closed = True
             self.close_reason = ev.get('reason')
